@@ -1,5 +1,8 @@
 pub mod c01;
+pub mod c03;
 pub mod c04;
+pub mod c07;
+pub mod c12;
 pub mod c13;
 pub mod c14;
 pub mod c17;
